@@ -65,6 +65,7 @@ def parseOp (ws : List String) : Option RepOp :=
   | ["rbpromote"] => some .rbPromote
   | ["rbend"] => some .rbEnd
   | ["clone", n] => some (.clone n)
+  | ["clone", n, "late"] => some (.clone n)     -- schedule of the status update: irrelevant to the outcome
   | ["maxchain", a] => do some (.maxChainSet (← a.toNat?))
   | ["replace", t, s] => some (.replace t s)
   | _ => none
